@@ -1109,6 +1109,188 @@ def unroll_reflective_loops(tree):
     return log
 
 
+def unroll_table_dispatch(tree):
+    """Data-driven dispatch over a small literal table becomes the if-ladder it stands for:
+
+        blockers = ((self._stopping, "stopping"), (self._busy, "busy"))
+        why = next((reason for flag, reason in blockers if flag), None)
+            ->  if self._stopping: why = "stopping" / elif self._busy: why = "busy" / else: why = None
+
+        for classes, action in ((A, B), f), ((C,), g)):          (table literal, or a local bound once to one)
+            if isinstance(e, classes):
+                action(x)
+                break
+            ->  if isinstance(e, (A, B)): f(x) / elif isinstance(e, (C,)): g(x)
+
+    Only when every row is a tuple of side-effect-free loads of the same arity as the target, there are at most 8 rows,
+    the row variables are used nowhere else, and - for rows that read attributes - the table is built by the statement
+    just before its use (so that evaluating an element at the use site gives the value the table held)."""
+    log = []
+
+    def stores(fn, name):
+        return [n for n in ast.walk(fn) if isinstance(n, ast.Name) and n.id == name and isinstance(n.ctx, (ast.Store, ast.Del))]
+
+    def rows_of(fn, block, idx, e, target):
+        """(rows, bind statement or None) for the iterable `e` consumed by block[idx]"""
+        bind = None
+        if isinstance(e, ast.Name):
+            binds = [st for st in ast.walk(fn) if isinstance(st, ast.Assign) and len(st.targets) == 1 and isinstance(st.targets[0], ast.Name)
+                     and st.targets[0].id == e.id]
+            if len(binds) != 1 or len(stores(fn, e.id)) != 1:
+                return None, None
+            bind = binds[0]
+            e = bind.value
+        if not isinstance(e, (ast.Tuple, ast.List)) or not (0 < len(e.elts) <= 8):
+            return None, None
+        names = [t.id for t in target.elts] if isinstance(target, ast.Tuple) and all(isinstance(t, ast.Name) for t in target.elts) else None
+        if not names or len(set(names)) != len(names):
+            return None, None
+        rows = []
+        attr_reads = False
+        for r_ in e.elts:
+            if not isinstance(r_, (ast.Tuple, ast.List)) or len(r_.elts) != len(names) or not all(_pure_load(x) for x in r_.elts):
+                return None, None
+            attr_reads = attr_reads or any(isinstance(y, ast.Attribute) for x in r_.elts for y in ast.walk(x))
+            # plain names in a row must be stable: bound at most once in the function (a def, a parameter, a global)
+            for x in r_.elts:
+                for y in ast.walk(x):
+                    if isinstance(y, ast.Name) and len(stores(fn, y.id)) > 1:
+                        return None, None
+            rows.append(r_.elts)
+        if attr_reads:
+            # the elements are read when the table is built: accept only a table built right before its use
+            if bind is not None and not (idx > 0 and block[idx - 1] is bind):
+                return None, None
+        return (names, rows), bind
+
+    def subst(node, names, row):
+        node = copy.deepcopy(node)
+        for nm, val in zip(names, row):
+            if isinstance(node, list):
+                node = [_Replace(None, copy.deepcopy(val), nm).visit(x) for x in node]
+            else:
+                node = _Replace(None, copy.deepcopy(val), nm).visit(node)
+        return node
+
+    def used_in_closures(nodes, names):
+        for n in nodes:
+            for x in ast.walk(n):
+                if isinstance(x, FUNC + (ast.Lambda,)):
+                    if any(isinstance(y, ast.Name) and y.id in names for y in ast.walk(x)):
+                        return True
+        return False
+
+    def uses_outside(fn, names, inside):
+        ins = {id(y) for n in inside for y in ast.walk(n)}
+        return any(isinstance(y, ast.Name) and y.id in names and id(y) not in ins for y in ast.walk(fn))
+
+    def ladder(arms, orelse):
+        """arms = [(test, body)] -> nested If"""
+        cur = orelse
+        for test, body in reversed(arms):
+            cur = [ast.If(test=test, body=body or [ast.Pass()], orelse=cur)]
+        return cur
+
+    def rewrite_block(fn, block):
+        out = list(block)
+        i = 0
+        changed = False
+        while i < len(out):
+            st = out[i]
+            for field in ("body", "orelse", "finalbody"):
+                b = getattr(st, field, None)
+                if isinstance(b, list) and b and isinstance(b[0], ast.stmt) and not isinstance(st, FUNC + (ast.ClassDef,)):
+                    nb, ch = rewrite_block(fn, b)
+                    if ch:
+                        setattr(st, field, nb)
+                        changed = True
+            for h in getattr(st, "handlers", None) or []:
+                nb, ch = rewrite_block(fn, h.body)
+                if ch:
+                    h.body = nb
+                    changed = True
+            new = None
+            # (1) x = next((ELT for T in TABLE if C), DEFAULT)
+            if isinstance(st, ast.Assign) and len(st.targets) == 1 and isinstance(st.targets[0], ast.Name) and isinstance(st.value, ast.Call) and \
+                    isinstance(st.value.func, ast.Name) and st.value.func.id == "next" and len(st.value.args) == 2 and not st.value.keywords and \
+                    isinstance(st.value.args[0], ast.GeneratorExp) and len(st.value.args[0].generators) == 1 and _pure_load(st.value.args[1]):
+                g = st.value.args[0]
+                gen = g.generators[0]
+                tab, bind = rows_of(fn, out, i, gen.iter, gen.target) if not gen.is_async else (None, None)
+                if tab is not None and not used_in_closures([g.elt] + gen.ifs, set(tab[0])) and not uses_outside(fn, set(tab[0]), [g]):
+                    names, rows = tab
+                    arms = []
+                    for row in rows:
+                        tests = [subst(t, names, row) for t in gen.ifs]
+                        test = tests[0] if len(tests) == 1 else (ast.BoolOp(op=ast.And(), values=tests) if tests else ast.Constant(value=True))
+                        arms.append((test, [ast.Assign(targets=[copy.deepcopy(st.targets[0])], value=subst(g.elt, names, row), lineno=st.lineno)]))
+                    new = ladder(arms, [ast.Assign(targets=[copy.deepcopy(st.targets[0])], value=st.value.args[1], lineno=st.lineno)])
+                    log.append("next() over a literal table of %d rows -> if-ladder at line %d" % (len(rows), st.lineno))
+            # (2) for T in TABLE: if C: S; break      /      for T in TABLE: S
+            elif isinstance(st, ast.For) and not st.orelse and isinstance(st.target, ast.Tuple):
+                tab, bind = rows_of(fn, out, i, st.iter, st.target)
+                body = st.body
+                jumps = [x for b in body for x in ast.walk(b) if isinstance(x, (ast.Break, ast.Continue))]
+                nested_loops = any(isinstance(x, (ast.For, ast.While)) for b in body for x in ast.walk(b))
+                if tab is not None and not nested_loops and not used_in_closures(body, set(tab[0])) and not uses_outside(fn, set(tab[0]), [st]) and not any(
+                        isinstance(x, ast.Name) and x.id in tab[0] and isinstance(x.ctx, ast.Store) for b in body for x in ast.walk(b)):
+                    names, rows = tab
+                    if len(body) == 1 and isinstance(body[0], ast.If) and not body[0].orelse and body[0].body and isinstance(body[0].body[-1], ast.Break) \
+                            and len(jumps) == 1:
+                        arms = [(subst(body[0].test, names, row), subst(body[0].body[:-1], names, row)) for row in rows]
+                        new = ladder(arms, [])
+                        log.append("first-match loop over a literal table of %d rows -> if-ladder at line %d" % (len(rows), st.lineno))
+                    elif not jumps:
+                        new = [x for row in rows for x in subst(body, names, row)]
+                        log.append("loop over a literal table of %d rows unrolled at line %d" % (len(rows), st.lineno))
+            if new is not None:
+                for x in new:
+                    ast.copy_location(x, st)
+                out[i:i + 1] = new
+                changed = True
+                # drop the table's binding when nothing reads it any more
+                if bind is not None and not any(isinstance(y, ast.Name) and y.id == bind.targets[0].id and isinstance(y.ctx, ast.Load)
+                                                for y in ast.walk(ast.Module(body=[z for z in ast.walk(fn) if isinstance(z, ast.stmt) and z is not st], type_ignores=[]))
+                                                if True):
+                    pass
+                i += len(new)
+                continue
+            i += 1
+        return out, changed
+
+    for fn in [n for n in ast.walk(tree) if isinstance(n, FUNC)]:
+        nb, ch = rewrite_block(fn, fn.body)
+        if ch:
+            fn.body = nb
+    if log:
+        # table bindings nobody reads any more
+        for fn in [n for n in ast.walk(tree) if isinstance(n, FUNC)]:
+            loads = {}
+            for y in ast.walk(fn):
+                if isinstance(y, ast.Name) and isinstance(y.ctx, ast.Load):
+                    loads[y.id] = loads.get(y.id, 0) + 1
+
+            def prune(block):
+                keep = []
+                for st in block:
+                    if isinstance(st, ast.Assign) and len(st.targets) == 1 and isinstance(st.targets[0], ast.Name) and isinstance(st.value, (ast.Tuple, ast.List)) \
+                            and st.value.elts and all(isinstance(r_, (ast.Tuple, ast.List)) and all(_pure_load(x) for x in r_.elts) for r_ in st.value.elts) \
+                            and loads.get(st.targets[0].id, 0) == 0:
+                        # its own element loads no longer count either way: a dead pure binding
+                        continue
+                    for field in ("body", "orelse", "finalbody"):
+                        b = getattr(st, field, None)
+                        if isinstance(b, list) and b and isinstance(b[0], ast.stmt) and not isinstance(st, FUNC + (ast.ClassDef,)):
+                            setattr(st, field, prune(b) or [ast.Pass()])
+                    for h in getattr(st, "handlers", None) or []:
+                        h.body = prune(h.body) or [ast.Pass()]
+                    keep.append(st)
+                return keep
+            fn.body = prune(fn.body) or [ast.Pass()]
+        ast.fix_missing_locations(tree)
+    return log
+
+
 def inline_new_helpers(tree, modname):
     """Inline the functions of this unit that are not part of the reference tree.  Returns a log of what was done."""
     ref = reference().get(modname)
